@@ -119,6 +119,7 @@ type Engine struct {
 	cfgType             types.Type
 	stop                atomic.Bool
 	mergeLoss           bool // the last merge turned concrete lengths into symbolic ones
+	lossyOK             bool // bound merge_lossy=1: byte-slice windows may become symbolic when outcomes are merged
 	arrSyms             map[string]*ArrSym
 	prefer              []*Term
 	bcryptPairs         map[string]string
@@ -134,6 +135,8 @@ type pathEnd struct{ reason string }
 
 // parkReq: the current goroutine blocks forever; frames unwind up to the vpGo that started it.
 type parkReq struct{}
+
+var forkDebug = os.Getenv("VP_FORKS") != ""
 
 type forkReq struct {
 	target ssa.Value
@@ -637,6 +640,15 @@ func (e *Engine) runPath(fr *Frame, st *State, stack *[]work) (Outcome, bool) {
 			}
 			if len(live) == 0 {
 				return Outcome{}, false
+			}
+			if len(live) > 1 && forkDebug {
+				w := "?"
+				if fr.block != nil && fr.ip < len(fr.block.Instrs) {
+					w = e.where(fr.block.Instrs[fr.ip])
+				} else if fr.block != nil && len(fr.block.Instrs) > 0 {
+					w = e.where(fr.block.Instrs[len(fr.block.Instrs)-1])
+				}
+				e.note(fmt.Sprintf("fork x%d @ %s in %s", len(live), w, fr.fn.Name()))
 			}
 			if len(res.branches) > 0 && res.branches[0].st == nil {
 				if res.branches[0].lazy && !e.cfg.EagerFeas && st.unchecked < e.bound("lazy_depth", 6) {
